@@ -146,8 +146,9 @@ class AppFlow:
                     out.append('^ROUTE')
                 elif d == 'self._handle_exception':
                     out.append('^HANDLE')
-                elif isinstance(f, ast.Attribute) and f.attr in ('insert', 'append') and isinstance(f.value, ast.Name) and f.value.id == self.dep_stack:
-                    if f.attr == 'insert' and x.args and isinstance(x.args[0], ast.Constant) and x.args[0].value == 0:
+                elif isinstance(f, ast.Attribute) and f.attr in ('insert', 'append', 'appendleft') and isinstance(f.value, ast.Name) and f.value.id == self.dep_stack:
+                    if (f.attr == 'insert' and x.args and isinstance(x.args[0], ast.Constant) and x.args[0].value == 0) \
+                            or (f.attr == 'appendleft' and len(x.args) == 1):  # deque.appendleft(x) is insert(0, x)
                         out.append('PUSH_HEAD')
                     else:
                         out.append('PUSH_OTHER')
